@@ -67,6 +67,63 @@ theorem order_positive_normal (o nrm : V3) (hn : nrm.dot nrm = 1) {s : Rat} (hs 
   rw [dot_planePos o nrm s hn, dot_planePos o nrm s hn, gdist_lt_iff hs]
   exact Int.ofNat_lt
 
+/-- **the indices order the planes along the positive normal — for EVERY accepted input** (sorting on, no gaps
+allowed; regular or merely within tolerance, any options): whenever the function answers `(spacing, indices)`, a row
+that lies at a smaller distance along the normal has a strictly smaller index. -/
+theorem accepted_indices_increase (nrm : V3) (ps : List V3) (op : Opts) (hsort : op.sort = true)
+    (hmiss : op.allowMissing = false) (hint : Option Rat) (rtol atol sp : Rat) (vp : List Int)
+    (h : volumePositionsOf nrm ps op hint rtol atol = .ok (some (sp, vp)))
+    (i j : Nat) (hi : i < ps.length) (hj : j < ps.length) (hlt : nrm.dot ps[i] < nrm.dot ps[j]) :
+    ∃ vi vj, vp[i]? = some vi ∧ vp[j]? = some vj ∧ vi < vj := by
+  unfold volumePositionsOf at h
+  simp only [hsort, if_true, hmiss, pure, Except.pure] at h
+  have hmi : ps[i] ∈ uniqueRows ps := (mem_uniqueRows _ ps).mpr (List.getElem_mem hi)
+  have hmj : ps[j] ∈ uniqueRows ps := (mem_uniqueRows _ ps).mpr (List.getElem_mem hj)
+  split at h
+  · cases h
+  · split at h
+    · -- a single distinct row: all rows coincide, no two distances differ
+      rename_i hlen1
+      exfalso
+      match hu : uniqueRows ps, hlen1 with
+      | [q], _ =>
+        rw [hu] at hmi hmj
+        simp only [List.mem_singleton] at hmi hmj
+        rw [hmi, hmj] at hlt
+        exact lt_irrefl _ hlt
+    · obtain ⟨r, hr, h⟩ := bind_ok h
+      cases r with
+      | none => cases h
+      | some r =>
+        obtain ⟨sp', inv⟩ := r
+        simp only [] at h
+        obtain ⟨vp', hread, h⟩ := bind_ok h
+        simp only [Except.ok.injEq, Option.some.injEq, Prod.mk.injEq] at h
+        obtain ⟨_, rfl⟩ := h
+        have hinv := examine_some_inv hr
+        obtain ⟨hvi, hsi⟩ := readIndices_getElem inv (indexIn (uniqueRows ps)) ps vp' hread i hi
+        obtain ⟨hvj, hsj⟩ := readIndices_getElem inv (indexIn (uniqueRows ps)) ps vp' hread j hj
+        -- positions of the two rows among the unique rows
+        have hai := List.idxOf_lt_length_of_mem hmi
+        have haj := List.idxOf_lt_length_of_mem hmj
+        have hgi : (uniqueRows ps)[(uniqueRows ps).idxOf ps[i]] = ps[i] := List.getElem_idxOf hai
+        have hgj : (uniqueRows ps)[(uniqueRows ps).idxOf ps[j]] = ps[j] := List.getElem_idxOf haj
+        set d := (uniqueRows ps).map nrm.dot with hd
+        have hdl : d.length = (uniqueRows ps).length := by simp [hd]
+        have hda : d[(uniqueRows ps).idxOf ps[i]]'(by omega) = nrm.dot ps[i] := by simp [hd, hgi]
+        have hdb : d[(uniqueRows ps).idxOf ps[j]]'(by omega) = nrm.dot ps[j] := by simp [hd, hgj]
+        have hrl : (ranks d).length = d.length := ranks_length d
+        have hia : (uniqueRows ps).idxOf ps[i] < (ranks d).length := by omega
+        have hja : (uniqueRows ps).idxOf ps[j] < (ranks d).length := by omega
+        obtain ⟨ra, hra⟩ : ∃ ra, (ranks d)[(uniqueRows ps).idxOf ps[i]]? = some ra :=
+          ⟨_, List.getElem?_eq_getElem hia⟩
+        obtain ⟨rb, hrb⟩ : ∃ rb, (ranks d)[(uniqueRows ps).idxOf ps[j]]? = some rb :=
+          ⟨_, List.getElem?_eq_getElem hja⟩
+        have hrank := ranks_lt_of_lt d _ _ (by omega) (by omega) (by rw [hda, hdb]; exact hlt) ra rb hra hrb
+        refine ⟨Int.ofNat ra, Int.ofNat rb, ?_, ?_, Int.ofNat_lt.mpr hrank⟩
+        · rw [hvi, hinv, List.getElem?_map]; simp only [indexIn, hra, Option.map]
+        · rw [hvj, hinv, List.getElem?_map]; simp only [indexIn, hrb, Option.map]
+
 /-- the positive normal IS the slice axis of the rotation matrix of the same convention and handedness
 (C10 `columns_orthogonal_lengths_handedness`): the frame (axis 0, axis 1, normal) has the requested handedness. -/
 theorem positive_normal_is_slice_axis (oo : Ori) {cv : Char × Char} (hcv : cv ∈ validConventions) (rh : Bool) :
@@ -255,6 +312,47 @@ theorem series_assembly_order_independent {α} (pay : Nat → α) (ori : List Ra
     bind, Except.bind, pure, Except.pure]
   obtain ⟨M, rfl⟩ : ∃ M, N = M + 1 := ⟨N - 1, by omega⟩
   simp [List.range_succ_eq_map, List.map_map]
+
+/-- **the frames of a multi-frame image assemble to the same volume whatever their order** (geometry and frame
+placement of `Image.get_volume` / `get_volume_geometry`, no slice selection): frames of a regular stack (default
+volume convention, `N ≥ 2` planes, several frames per plane allowed, no hint) stored in any order `js`: spacing `s`,
+`N` slices, origin = position of plane 0, and every frame goes to the slice of its plane number. -/
+theorem multiframe_assembly_order_independent (ori : List Rat) (oo : Ori) (hori : Ori.ofList ori = some oo)
+    (ho : OrthoPair oo.row oo.col) (o : V3) {s : Rat} (hs : 0 < s) (js : List Nat) {N : Nat} (hN : 2 ≤ N)
+    (hmem : ∀ j, j ∈ js ↔ j < N) :
+    assembleFrames ((js.map (planePos o (normalSpec oo ('D', 'R') true) s)).map rowOf) ori none none none false
+      = .ok (s, rowOf (planePos o (normalSpec oo ('D', 'R') true) s 0), (N : Int), js.map Int.ofNat) := by
+  set nrm := normalSpec oo ('D', 'R') true with hnrm
+  have hcv : ('D', 'R') ∈ validConventions := by decide
+  have hopts : normaliseOpts { allowDuplicate := true } = .ok (none, 1 / 100, 0) := by decide +kernel
+  have hreg := regular_stack_recognised ori oo hori ho hcv { allowDuplicate := true } rfl rfl rfl hopts (by norm_num)
+    (le_refl 0) o hs js hN hmem (Or.inl rfl)
+  simp only [] at hreg
+  rw [← hnrm] at hreg
+  have h0 : 0 ∈ js := (hmem 0).mpr (by omega)
+  have hmax : maxList (js.map Int.ofNat) = some ((N : Int) - 1) := by
+    apply maxList_eq
+    · have : N - 1 ∈ js := (hmem (N - 1)).mpr (by omega)
+      have := List.mem_map_of_mem (f := Int.ofNat) this
+      have e : Int.ofNat (N - 1) = (N : Int) - 1 := by simp; omega
+      rw [e] at this; exact this
+    · intro x hx
+      obtain ⟨j, hj, rfl⟩ := List.mem_map.mp hx
+      have := (hmem j).mp hj
+      simp; omega
+  have hinj : Function.Injective Int.ofNat := fun a b h => Int.ofNat.inj h
+  have hidx : (js.map Int.ofNat).idxOf? 0 = some (js.idxOf 0) := by
+    have hm : Int.ofNat 0 ∈ js.map Int.ofNat := List.mem_map_of_mem h0
+    have := idxOf?_of_mem (Int.ofNat 0) _ hm
+    rw [idxOf_map_injective hinj] at this
+    exact this
+  have hrow : ((js.map (planePos o nrm s)).map rowOf)[js.idxOf 0]? = some (rowOf (planePos o nrm s 0)) := by
+    rw [List.map_map]
+    exact getElem?_idxOf_map (rowOf ∘ planePos o nrm s) 0 js h0
+  unfold assembleFrames
+  simp only [hreg, hmax, hidx, hrow, bind, Except.bind, pure, Except.pure]
+  have e : (N : Int) - 1 + 1 = (N : Int) := by omega
+  rw [e]
 
 /-! ## `sort=False`: the order given is the order examined (defect C11-unsorted-uses-given-order, repaired) -/
 
